@@ -1,0 +1,380 @@
+//! Read-only introspection for external runtime monitors (cargo feature `verif`).
+//!
+//! * `dump`: canonical JSON rendering of an evaluated value (lazy natives are forced through
+//!   the runtime scope, inside an element budget);
+//! * `shape`: does a value have the shape of a static type.
+use crate::builtin::generators::XGenerator;
+use crate::builtin::mapping::XMapping;
+use crate::builtin::optional::XOptional;
+use crate::builtin::sequence::XSequence;
+use crate::builtin::set::XSet;
+use crate::builtin::stack::XStack;
+use crate::root_runtime_scope::EvaluatedValue;
+use crate::runtime::RTCell;
+use crate::runtime_scope::RuntimeScope;
+use crate::runtime_violation::RuntimeViolation;
+use crate::util::lazy_bigint::LazyBigint;
+use crate::xtype::{CompoundKind, XType};
+use crate::xvalue::{ManagedXValue, XValue};
+use serde_json::{json, Value};
+use std::rc::Rc;
+use std::sync::Arc;
+
+pub(crate) struct Budget {
+    /// maximal number of elements forced per lazy container
+    pub(crate) per_container: usize,
+    /// maximal number of nodes rendered in total
+    pub(crate) nodes: usize,
+}
+
+fn viol_name(v: &RuntimeViolation) -> String {
+    match v {
+        RuntimeViolation::OutputFailure(_) => "OutputFailure".to_string(),
+        RuntimeViolation::PermissionError(id) => format!("PermissionError({id})"),
+        other => format!("{other:?}"),
+    }
+}
+
+fn seq_repr<W, R, T>(s: &XSequence<W, R, T>) -> &'static str {
+    match s {
+        XSequence::Empty => "Empty",
+        XSequence::Array(_) => "Array",
+        XSequence::Range(..) => "Range",
+        XSequence::Map(..) => "Map",
+        XSequence::Zip(_) => "Zip",
+        XSequence::Chain { .. } => "Chain",
+        XSequence::Slice(..) => "Slice",
+        XSequence::Count => "Count",
+    }
+}
+
+fn gen_repr<W, R, T>(s: &XGenerator<W, R, T>) -> &'static str {
+    match s {
+        XGenerator::Aggregate { .. } => "Aggregate",
+        XGenerator::FromSequence(_) => "FromSequence",
+        XGenerator::SuccessorsUntil(..) => "SuccessorsUntil",
+        XGenerator::Map(..) => "Map",
+        XGenerator::Filter(..) => "Filter",
+        XGenerator::Zip(_) => "Zip",
+        XGenerator::Chain(_) => "Chain",
+        XGenerator::Slice(..) => "Slice",
+        XGenerator::Repeat(_) => "Repeat",
+        XGenerator::TakeWhile(..) => "TakeWhile",
+        XGenerator::SkipUntil(..) => "SkipUntil",
+        XGenerator::FromSet(_) => "FromSet",
+        XGenerator::FromMapping(_) => "FromMapping",
+        XGenerator::WithCount { .. } => "WithCount",
+        XGenerator::Group { .. } => "Group",
+        XGenerator::Windows { .. } => "Windows",
+        XGenerator::Product(_) => "Product",
+    }
+}
+
+pub(crate) fn dump<W: 'static, R: 'static, T: 'static>(
+    v: &EvaluatedValue<W, R, T>,
+    ns: &RuntimeScope<W, R, T>,
+    rt: &RTCell<W, R, T>,
+    budget: &mut Budget,
+) -> Value {
+    match v {
+        Err(e) => json!(["err", e.error]),
+        Ok(v) => dump_value(v, ns, rt, budget),
+    }
+}
+
+fn dump_items<W: 'static, R: 'static, T: 'static>(
+    it: impl Iterator<
+        Item = Result<EvaluatedValue<W, R, T>, RuntimeViolation>,
+    >,
+    ns: &RuntimeScope<W, R, T>,
+    rt: &RTCell<W, R, T>,
+    budget: &mut Budget,
+) -> (Vec<Value>, bool) {
+    let mut items = vec![];
+    let mut it = it;
+    let mut truncated = false;
+    loop {
+        if items.len() >= budget.per_container || budget.nodes == 0 {
+            // is there one more?
+            truncated = true;
+            break;
+        }
+        match it.next() {
+            None => break,
+            Some(Err(violation)) => {
+                items.push(json!(["viol", viol_name(&violation)]));
+                break;
+            }
+            Some(Ok(item)) => items.push(dump(&item, ns, rt, budget)),
+        }
+    }
+    (items, truncated)
+}
+
+fn dump_value<W: 'static, R: 'static, T: 'static>(
+    v: &Rc<ManagedXValue<W, R, T>>,
+    ns: &RuntimeScope<W, R, T>,
+    rt: &RTCell<W, R, T>,
+    budget: &mut Budget,
+) -> Value {
+    if budget.nodes == 0 {
+        return json!(["cut"]);
+    }
+    budget.nodes -= 1;
+    match &v.value {
+        XValue::Int(LazyBigint::Short(i)) => json!(["i", i.to_string(), "S"]),
+        XValue::Int(LazyBigint::Long(b)) => json!(["i", b.to_string(), "L"]),
+        XValue::Float(f) => json!(["f", format!("{:016x}", f.to_bits()), format!("{f:?}")]),
+        XValue::String(s) => json!(["s", s.as_str(), s.len()]),
+        XValue::Bool(b) => json!(["b", b]),
+        XValue::Function(_) => json!(["fn"]),
+        XValue::StructInstance(items) => {
+            json!(["t", items.iter().map(|i| dump_value(i, ns, rt, budget)).collect::<Vec<_>>()])
+        }
+        XValue::UnionInstance((idx, item)) => json!(["u", idx, dump_value(item, ns, rt, budget)]),
+        XValue::Native(b) => {
+            let any = b.as_ref()._as_any();
+            if let Some(seq) = any.downcast_ref::<XSequence<W, R, T>>() {
+                let len = seq.len();
+                let (items, truncated) = match len {
+                    Some(0) => (vec![], false),
+                    _ => {
+                        let n = len.map_or(budget.per_container, |l| l.min(budget.per_container));
+                        let (items, t) =
+                            dump_items((0..n).map(|i| seq.get(i, ns, rt.clone())), ns, rt, budget);
+                        let complete = !t && len.map_or(false, |l| items.len() == l);
+                        (items, !complete)
+                    }
+                };
+                json!(["q", items, truncated, seq_repr(seq), len])
+            } else if let Some(gen) = any.downcast_ref::<XGenerator<W, R, T>>() {
+                let (items, truncated) = dump_items(gen.iter(ns, rt.clone()), ns, rt, budget);
+                json!(["g", items, truncated, gen_repr(gen)])
+            } else if let Some(opt) = any.downcast_ref::<XOptional<W, R, T>>() {
+                match &opt.value {
+                    None => json!(["o", null]),
+                    Some(x) => json!(["o", dump_value(x, ns, rt, budget)]),
+                }
+            } else if let Some(stack) = any.downcast_ref::<XStack<W, R, T>>() {
+                let (items, truncated) =
+                    dump_items(stack.iter().map(|x| Ok(Ok(x))), ns, rt, budget);
+                json!(["k", items, truncated, stack.length])
+            } else if let Some(set) = any.downcast_ref::<XSet<W, R, T>>() {
+                let (items, truncated) = dump_items(set.iter().map(|x| Ok(Ok(x))), ns, rt, budget);
+                json!(["e", items, truncated])
+            } else if let Some(mapping) = any.downcast_ref::<XMapping<W, R, T>>() {
+                let mut items = vec![];
+                let mut truncated = false;
+                for (k, v) in mapping.iter() {
+                    if items.len() >= budget.per_container || budget.nodes == 0 {
+                        truncated = true;
+                        break;
+                    }
+                    items.push(json!([dump_value(&k, ns, rt, budget), dump_value(&v, ns, rt, budget)]));
+                }
+                json!(["m", items, truncated])
+            } else {
+                let d = format!("{b:?}");
+                let name: String = d.chars().take_while(|c| c.is_alphanumeric() || *c == '_').collect();
+                json!(["n", name])
+            }
+        }
+    }
+}
+
+/// returns `Err(description)` when the value does not have the shape of the type
+pub(crate) fn shape<W: 'static, R: 'static, T: 'static>(
+    v: &EvaluatedValue<W, R, T>,
+    t: &Arc<XType>,
+    ns: &RuntimeScope<W, R, T>,
+    rt: &RTCell<W, R, T>,
+    budget: &mut Budget,
+) -> Result<(), String> {
+    match v {
+        Err(_) => Ok(()),
+        Ok(v) => shape_value(v, t, ns, rt, budget),
+    }
+}
+
+fn tag<W, R, T>(v: &XValue<W, R, T>) -> &'static str {
+    match v {
+        XValue::Int(_) => "Int",
+        XValue::Float(_) => "Float",
+        XValue::String(_) => "String",
+        XValue::Bool(_) => "Bool",
+        XValue::Function(_) => "Function",
+        XValue::StructInstance(_) => "StructInstance",
+        XValue::UnionInstance(_) => "UnionInstance",
+        XValue::Native(_) => "Native",
+    }
+}
+
+fn shape_items<W: 'static, R: 'static, T: 'static>(
+    it: impl Iterator<Item = Result<EvaluatedValue<W, R, T>, RuntimeViolation>>,
+    t: &Arc<XType>,
+    ns: &RuntimeScope<W, R, T>,
+    rt: &RTCell<W, R, T>,
+    budget: &mut Budget,
+    what: &str,
+) -> Result<(), String> {
+    for (i, item) in it.enumerate() {
+        if i >= budget.per_container || budget.nodes == 0 {
+            break;
+        }
+        match item {
+            Err(_) => break,
+            Ok(item) => shape(&item, t, ns, rt, budget).map_err(|e| format!("{what}[{i}]: {e}"))?,
+        }
+    }
+    Ok(())
+}
+
+fn shape_value<W: 'static, R: 'static, T: 'static>(
+    v: &Rc<ManagedXValue<W, R, T>>,
+    t: &Arc<XType>,
+    ns: &RuntimeScope<W, R, T>,
+    rt: &RTCell<W, R, T>,
+    budget: &mut Budget,
+) -> Result<(), String> {
+    if budget.nodes == 0 {
+        return Ok(());
+    }
+    budget.nodes -= 1;
+    let mismatch = |expected: &str| Err(format!("expected {expected}, found {}", tag(&v.value)));
+    match t.as_ref() {
+        XType::Bool => match &v.value {
+            XValue::Bool(_) => Ok(()),
+            _ => mismatch("Bool"),
+        },
+        XType::Int => match &v.value {
+            XValue::Int(_) => Ok(()),
+            _ => mismatch("Int"),
+        },
+        XType::Float => match &v.value {
+            XValue::Float(_) => Ok(()),
+            _ => mismatch("Float"),
+        },
+        XType::String => match &v.value {
+            XValue::String(_) => Ok(()),
+            _ => mismatch("String"),
+        },
+        XType::XUnknown | XType::XGeneric(_) | XType::XTail(_) | XType::Auto => Ok(()),
+        XType::XCallable(_) | XType::XFunc(_) => match &v.value {
+            XValue::Function(_) => Ok(()),
+            _ => mismatch("Function"),
+        },
+        XType::Tuple(types) => match &v.value {
+            XValue::StructInstance(items) => {
+                if items.len() != types.len() {
+                    return Err(format!(
+                        "expected tuple of {} items, found {}",
+                        types.len(),
+                        items.len()
+                    ));
+                }
+                for (i, (item, it)) in items.iter().zip(types.iter()).enumerate() {
+                    shape_value(item, it, ns, rt, budget).map_err(|e| format!("item{i}: {e}"))?;
+                }
+                Ok(())
+            }
+            _ => mismatch("StructInstance(tuple)"),
+        },
+        XType::Compound(CompoundKind::Struct, spec, bind) => match &v.value {
+            XValue::StructInstance(items) => {
+                if items.len() != spec.fields.len() {
+                    return Err(format!(
+                        "expected struct of {} fields, found {}",
+                        spec.fields.len(),
+                        items.len()
+                    ));
+                }
+                for (i, (item, f)) in items.iter().zip(spec.fields.iter()).enumerate() {
+                    let ft = f.type_.resolve_bind(bind, Some(t));
+                    shape_value(item, &ft, ns, rt, budget).map_err(|e| format!("field{i}: {e}"))?;
+                }
+                Ok(())
+            }
+            _ => mismatch("StructInstance"),
+        },
+        XType::Compound(CompoundKind::Union, spec, bind) => match &v.value {
+            XValue::UnionInstance((idx, item)) => {
+                if *idx >= spec.fields.len() {
+                    return Err(format!(
+                        "variant index {idx} out of {} variants",
+                        spec.fields.len()
+                    ));
+                }
+                let ft = spec.fields[*idx].type_.resolve_bind(bind, Some(t));
+                shape_value(item, &ft, ns, rt, budget).map_err(|e| format!("variant{idx}: {e}"))
+            }
+            _ => mismatch("UnionInstance"),
+        },
+        XType::XNative(nt, args) => {
+            let XValue::Native(b) = &v.value else { return mismatch(&format!("Native({})", nt.name())) };
+            let any = b.as_ref()._as_any();
+            let unknown: Arc<XType> = Arc::new(XType::XUnknown);
+            let arg = |i: usize| args.get(i).unwrap_or(&unknown);
+            match nt.name() {
+                "Sequence" => {
+                    let Some(seq) = any.downcast_ref::<XSequence<W, R, T>>() else { return Err(format!("expected Sequence, found native {b:?}")) };
+                    let n = seq
+                        .len()
+                        .map_or(budget.per_container, |l| l.min(budget.per_container));
+                    shape_items(
+                        (0..n).map(|i| seq.get(i, ns, rt.clone())),
+                        arg(0),
+                        ns,
+                        rt,
+                        budget,
+                        "seq",
+                    )
+                }
+                "Generator" => {
+                    let Some(gen) = any.downcast_ref::<XGenerator<W, R, T>>() else { return Err(format!("expected Generator, found native {b:?}")) };
+                    shape_items(gen.iter(ns, rt.clone()), arg(0), ns, rt, budget, "gen")
+                }
+                "Optional" => {
+                    let Some(opt) = any.downcast_ref::<XOptional<W, R, T>>() else { return Err(format!("expected Optional, found native {b:?}")) };
+                    match &opt.value {
+                        None => Ok(()),
+                        Some(x) => shape_value(x, arg(0), ns, rt, budget).map_err(|e| format!("some: {e}")),
+                    }
+                }
+                "Stack" => {
+                    let Some(stack) = any.downcast_ref::<XStack<W, R, T>>() else { return Err(format!("expected Stack, found native {b:?}")) };
+                    shape_items(stack.iter().map(|x| Ok(Ok(x))), arg(0), ns, rt, budget, "stack")
+                }
+                "Set" => {
+                    let Some(set) = any.downcast_ref::<XSet<W, R, T>>() else { return Err(format!("expected Set, found native {b:?}")) };
+                    shape_items(set.iter().map(|x| Ok(Ok(x))), arg(0), ns, rt, budget, "set")
+                }
+                "Mapping" => {
+                    let Some(mapping) = any.downcast_ref::<XMapping<W, R, T>>() else { return Err(format!("expected Mapping, found native {b:?}")) };
+                    for (i, (k, val)) in mapping.iter().enumerate() {
+                        if i >= budget.per_container || budget.nodes == 0 {
+                            break;
+                        }
+                        shape_value(&k, arg(0), ns, rt, budget).map_err(|e| format!("key[{i}]: {e}"))?;
+                        shape_value(&val, arg(1), ns, rt, budget)
+                            .map_err(|e| format!("value[{i}]: {e}"))?;
+                    }
+                    Ok(())
+                }
+                _ => {
+                    // Regex, distributions: must not be one of the container natives
+                    if any.is::<XSequence<W, R, T>>()
+                        || any.is::<XGenerator<W, R, T>>()
+                        || any.is::<XOptional<W, R, T>>()
+                        || any.is::<XStack<W, R, T>>()
+                        || any.is::<XSet<W, R, T>>()
+                        || any.is::<XMapping<W, R, T>>()
+                    {
+                        Err(format!("expected {}, found native {b:?}", nt.name()))
+                    } else {
+                        Ok(())
+                    }
+                }
+            }
+        }
+    }
+}
